@@ -24,6 +24,7 @@ from vlib.compare import diff, Err
 from props.C07 import ExactObj, span_points, check_piece
 
 ID = 'C08'
+PYOBJECT_METHODS = ['lower_periodic', 'make_periodic', 'make_periodic_c', 'split']   # splineobject.py methods re-translated and proved equal to the hand model each run
 PYBASIS_METHODS = ['make_periodic', 'roll']   # basis.py methods re-translated and proved equal to the hand model each run
 RTOL = 1e-9
 ATOL = 1e-11
